@@ -20,7 +20,7 @@ import os
 from vlib import core, tlc
 
 BASE = {'RangeBug': 'FALSE', 'SliceBug': 'FALSE'}
-COUNTERS = ['scrub_changed', 'find_nonempty', 'find_by_range_nonempty', 'find_inner_window_nonempty', 'walk_two_or_more_pages', 'facet_nonempty']
+COUNTERS = ['scrub_changed', 'find_nonempty', 'find_by_range_nonempty', 'find_inner_window_nonempty', 'walk_two_or_more_pages', 'facet_nonempty', 'result_mixed_width_run_ids']
 SCRUB_BATCH = 250
 
 
@@ -53,7 +53,7 @@ def to_jobs(scrub_cases, db_cases):
         steps = [{'ev': 'Find', 'args': f} for f in c['finds']]
         steps += [{'ev': 'Pages', 'args': p} for p in c['pages']]
         steps += [{'ev': 'Facet', 'args': f} for f in c['facets']]
-        jobs.append({'id': len(jobs) + 1, 'kind': 'b', 'db': c['db'], 'bump': c['bump'], 'rev': c['rev'], 'steps': steps})
+        jobs.append({'id': len(jobs) + 1, 'kind': 'b', 'db': c['db'], 'bump': c['bump'], 'rev': c['rev'], 'off': c.get('off', 0), 'steps': steps})
     return jobs
 
 
@@ -69,7 +69,7 @@ def single(job, line):
     '''the job reduced to one step: the replay object of a violation'''
     if job['kind'] == 'a':
         return {'id': 1, 'kind': 'a', 'exprs': [job['exprs'][line - 1]]}
-    return {'id': 1, 'kind': 'b', 'db': job['db'], 'bump': job['bump'], 'rev': job['rev'], 'steps': [job['steps'][line - 1]]}
+    return {'id': 1, 'kind': 'b', 'db': job['db'], 'bump': job['bump'], 'rev': job['rev'], 'off': job.get('off', 0), 'steps': [job['steps'][line - 1]]}
 
 
 def run_kind(run, hasrun=True):
@@ -139,7 +139,7 @@ def execute(chk, pid, jobs):
         cnt, lines = stat['cnt'], stat['lines']
         totals = [a + b for a, b in zip(totals, cnt)]
         job = byid[tid]
-        dbkey = json.dumps([job.get('db'), job.get('bump'), job.get('rev')], sort_keys=True)
+        dbkey = json.dumps([job.get('db'), job.get('bump'), job.get('rev'), job.get('off')], sort_keys=True)
         for line in lines:
             nontrivial.add(dbkey + json.dumps(step_of(job, line), sort_keys=True))
     if len(rows['STAT']) != len(jobs):
@@ -189,7 +189,7 @@ def run(pid, tier, seed, replay=None):
     ]
     chk.assumptions = [
         'bounded domain: run-id items = id 0..4 or range start 0..4 : stop 0..5/open, <= 3 items; databases = subsets of the 4x2x2x2x2x2 grid '
-        '(runs 1..4, names with a stored name that is a prefix of another and unknown names that are prefixes/extensions of stored ones); '
+        '(runs 1..4, stored as run + 0 / 7 / 97 so that run ids of different decimal widths occur: 8..11, 98..101; names with a stored name that is a prefix of another and unknown names that are prefixes/extensions of stored ones); '
         'index 0..6, limit none/1/2/3',
         'order among entries with equal run id is not constrained (the statement fixes run-id order only); an empty run-id expression means "no constraint" (as the front end does)',
         'one version per name and run (optionally a newer version from run 3 on); the value constraint and the run-id facet are not part of the property (not reachable from fe.api)',
